@@ -221,6 +221,8 @@ def gen_compute_case(rng, maxpix=48, force=None):
     if kind == 'bigint':
         # sums of 2**60 leave int64; the harness hands value thresholds over as floats
         case['crits'] = [c for c in case['crits'] if c[0] in ('seeds', 'npixacc')]
+    # is_independent may be any iterable of functions, also one that can be walked only once
+    case['crit_container'] = rng.choices(['list', 'tuple', 'iter', 'gen', 'map'], weights=[50, 10, 15, 15, 10])[0]
     case.update(force.get('override', {}))
     return case
 
